@@ -101,6 +101,8 @@ def check(prop, spec, tier, seed, replay=None):
         if bindir is None:
             violations.append(("harness", "harness does not build against /repo",
                                {"log_tail": err[-3000:], "correspondence": "go build of " + ",".join(spec.get("drivers", []))}))
+    unit_results = []
+    ctx = None
     if ok_model and bindir is not None:
         ctx = Ctx(prop, tier, seed, bindir, core.work_dir(prop, tier, seed))
         for unit in spec["units"]:
@@ -112,6 +114,7 @@ def check(prop, spec, tier, seed, replay=None):
                 violations.append(("harness", "correspondence unit %s failed to run" % unit.name,
                                    {"error": r["error"][-3000:], "correspondence": unit.name}))
                 continue
+            unit_results.append((unit, r))
             pr = parse_lines(prop, r["lines"])
             for k in ("mismatch", "fail", "summary", "samples"):
                 results[k].extend(pr[k])
@@ -146,6 +149,27 @@ def check(prop, spec, tier, seed, replay=None):
         if match_known(prop, "FAIL %s  %s" % (prop, ml), [dict(f, clause="") for f in kf.get("findings", [])
                                                               if f.get("covers_mismatch")]) is None:
             unknown_mis.append(ml)
+
+    # ---- the tie is broken but no checker failed: directed search for a failing input (extends the
+    #      diverging prefixes; see ocaml/ext.ml) before reporting no-failing-input-found
+    if unknown_mis and not unknown_fail and ctx is not None:
+        from . import props as _props
+        for unit, r in unit_results:
+            esc = _props.ESCALATE.get(unit.name)
+            if esc is None or r.get("error"):
+                continue
+            try:
+                extra = esc(ctx, r)
+            except Exception as e:   # the search is best effort
+                notes.append("escalation of %s failed: %r" % (unit.name, e))
+                extra = []
+            for fl in parse_lines(prop, extra)["fail"]:
+                f = match_known(prop, fl, kf.get("findings", []))
+                if f is not None:
+                    known_hit.setdefault(f["id"], (f, fl))
+                else:
+                    unknown_fail.append(fl + "   [found by the directed search after the correspondence broke]")
+            results["stats"]["escalated_units"] = results["stats"].get("escalated_units", 0) + 1
 
     out_lines = []
     for fid, (f, fl) in sorted(known_hit.items()):
